@@ -200,7 +200,10 @@ def run_property(prop, tier='quick', seed=0, jobs=None, only=None):
       continue
     if only and only not in cls.__name__ and only not in cls.short():
       continue
-    for v in cls.variants:
+    # a shape-bounded family may state a smaller deterministic sample of its
+    # shapes for the quick tier (variants_for(tier, seed)); default: all variants
+    vs = cls.variants_for(tier, seed) if hasattr(cls, 'variants_for') else cls.variants
+    for v in vs:
       tasks.append((cls.__module__, cls.__name__, v, goal_timeout_ms))
 
   reports = []
@@ -294,7 +297,9 @@ def run_property(prop, tier='quick', seed=0, jobs=None, only=None):
       for b in o['backends']:
         by_backend[b] = by_backend.get(b, 0) + 1
       if o['status'] == 'failed':
-        hits = known_by_ob.get(name)
+        hits = known_by_ob.get(name) or [
+            k for k in known if k.get('kind', 'obligation') == 'obligation' and k.get('match')
+            and re.search(k['match'], name)]
         if hits:
           known_hits.append((name, hits[0], o))
           continue
@@ -319,7 +324,7 @@ def run_property(prop, tier='quick', seed=0, jobs=None, only=None):
 
   # known findings that no longer fail are reported (not an error)
   stale_known = [k for k in known if k.get('kind', 'obligation') == 'obligation'
-                 and k['obligation'] not in [n for n, _, _ in known_hits]]
+                 and k['id'] not in [k_['id'] for _, k_, _ in known_hits]]
 
   # -- bounded tier ------------------------------------------------------------------
   waivers = []
